@@ -366,6 +366,33 @@ func firstNonPhi(b *ssa.BasicBlock) int {
 func (fc *fnCtx) atLoopHeader(st *State, fr *frame, li *loopInfo, pred *ssa.BasicBlock) bool {
 	fromInside := pred != nil && li.body[pred]
 	lname := fmt.Sprintf("loop%d", li.ordinal)
+	// a variable used inside the loop with a value defined outside it has that value at the
+	// header (go/ssa binds some declarations only at their first use)
+	phiNames := map[string]bool{}
+	for _, ins := range li.header.Instrs {
+		if phi, ok := ins.(*ssa.Phi); ok && phi.Comment != "" {
+			phiNames[phi.Comment] = true
+		}
+	}
+	for blk := range li.body {
+		for _, ins := range blk.Instrs {
+			d, ok := ins.(*ssa.DebugRef)
+			if !ok || d.IsAddr || d.Object() == nil {
+				continue
+			}
+			if _, isVar := d.Object().(*types.Var); !isVar || phiNames[d.Object().Name()] {
+				continue
+			}
+			if def, isIns := d.X.(ssa.Instruction); isIns && li.body[def.Block()] {
+				continue
+			}
+			if v, ok := fc.tryVal(st, d.X); ok {
+				if cur, has := st.names[d.Object().Name()]; !has || cur.T == "nil" || cur.T == "nil_slice" {
+					st.names[d.Object().Name()] = v
+				}
+			}
+		}
+	}
 	sc := fc.specCtxFor(st, fr)
 	sc.useNames = true
 	if li.spec == nil {
@@ -418,6 +445,8 @@ func (fc *fnCtx) atLoopHeader(st *State, fr *frame, li *loopInfo, pred *ssa.Basi
 			st.pc = append(st.pc, g)
 		}
 	}
+	// vacuity guard: the invariants must be satisfiable together with the path so far
+	fc.emitQ(st, fc.oblName(fr, "smoke."+lname), "smoke", "loop invariants are satisfiable", "", "false", nil, true)
 	if li.spec.Decreases != nil {
 		g := fc.evalIntClause(sc, li.spec.Decreases, "")
 		if g != "" {
